@@ -475,7 +475,8 @@ def explore(ctx, res, full=False, budget=400):
     quick: a stratified sample (`budget` ≈ plans per original program×target, a third of it per new program);
     thorough: every two-/three-pre-emption plan of the original programs, and of the new two-thread programs up to a cap
     (beyond it: all three-pre-emption plans + a sample; reported in `preempt_exhaustive`);
-    failing-input search (ctx.budget_factor > 1): every plan, programs in order, stops at the first violation."""
+    failing-input search (ctx.budget_factor > 1): all three-pre-emption plans + 1500 (original programs) / 400 (new programs) sampled
+    two-pre-emption plans per program, programs in order, stops at the first violation."""
     from harness.props import c16
     impl = c16.Impl(ctx)
     old = sys.getswitchinterval()
@@ -487,7 +488,8 @@ def explore(ctx, res, full=False, budget=400):
         for target in ("proc", "front"):
             ex = Explorer(impl, target)
             for pname, progs in PROGS:
-                n, found, e = _explore_program(ctx, res, ex, target, pname, progs, target, full, budget // 2 if not full else budget, search)
+                n, found, e = _explore_program(ctx, res, ex, target, pname, progs, target, full, budget // 2 if not full else budget, search,
+                                               cap=1500 if search else None)
                 total += n
                 (exh if e else sampled).append("%s:%s" % (target, pname))
                 if found and search:
@@ -499,7 +501,7 @@ def explore(ctx, res, full=False, budget=400):
             ex = Explorer(impl, None)
             for family, pname, progs in PROGS2:
                 n, found, e = _explore_program(ctx, res, ex, family, pname, progs, None, full, max(12, budget // 4), search,
-                                               cap=None if search else 2500)
+                                               cap=400 if search else 2500)
                 total += n
                 (exh if e else sampled).append(pname)
                 if found and search:
